@@ -220,72 +220,123 @@ def KindTable.find (kt : KindTable) (apiVersion kind : String) : Option KindInfo
 
 def gvkAPIVersion (k : GVK) : String := if k.group == "" then k.version else k.group ++ "/" ++ k.version
 
+/-- the server-side-apply memo (`lastUpdatedCache`, process-global): key ↦ (desired object as hashed, generation).
+    The 64-bit hash of the marshalled desired object is modelled by the object itself. -/
+abbrev Memo := List (String × (J × Int))
+
+def memoKey (info : KindInfo) (kind : String) (o : J) : String :=
+  info.group ++ "/" ++ kind ++ "/" ++ getNamespace o ++ "/" ++ getName o
+
+def Memo.erase (m : Memo) (k : String) : Memo := m.filter (·.1 != k)
+def Memo.set (m : Memo) (k : String) (v : J × Int) : Memo := m.erase k ++ [(k, v)]
+
 /-- `deleteChildren` for one group -/
-def deleteGroup (info : KindInfo) (desiredNames : List String) : List (String × J) → Prog (List String)
-  | [] => pure []
-  | (name, obj) :: rest => do
-      let errs ← deleteGroup info desiredNames rest
-      if isDeleting obj then pure errs
-      else if desiredNames.contains name then pure errs
+def deleteGroup (info : KindInfo) (kind : String) (desiredNames : List String) : List (String × J) → Memo → Prog (List String × Memo)
+  | [], memo => pure ([], memo)
+  | (name, obj) :: rest, memo => do
+      let (errs, memo) ← deleteGroup info kind desiredNames rest memo
+      if isDeleting obj then pure (errs, memo)
+      else if desiredNames.contains name then pure (errs, memo)
       else
         let r ← api .delete (targetOf info.group info.resource info.namespaced (getNamespace obj) (getName obj)) .null (deleteOpts (getUID obj))
         match r with
-        | .err "NotFound" => pure errs
-        | .err e => pure (s!"can't delete: {e}" :: errs)
-        | _ => pure errs
+        | .err "NotFound" => pure (errs, memo)
+        | .err e => pure (s!"can't delete: {e}" :: errs, memo)
+        | _ => pure (errs, memo.erase (memoKey info kind obj))
 
 /-- the object sent by a create: last-applied recorded first, then the controller reference appended -/
 def createBody (parentRef : OwnerRef) (des : J) : J :=
   let o := setLastApplied des des
   setOwnerRefs o (getOwnerRefs o ++ [parentRef])
 
-/-- `updateChildren` for one group, dynamic apply -/
-def updateGroup (mks sys : List String) (children : List ChildRes) (info : KindInfo) (kind : String) (parentRef : OwnerRef)
-    (observed : List (String × J)) : List (String × J) → Prog (List String)
-  | [] => pure []
-  | (name, des) :: rest => do
-      let errs ← updateGroup mks sys children info kind parentRef observed rest
+def applyOpts (fieldManager : String) : J := .obj [("fieldManager", .str fieldManager), ("force", .str "true")]
+
+/-- what is sent by server-side apply: the hook's object with the controller reference to the parent -/
+def applyBody (parentRef : OwnerRef) (des : J) : J :=
+  if (getOwnerRefs des).any (·.uid == parentRef.uid) then des else setOwnerRefs des (getOwnerRefs des ++ [parentRef])
+
+/-- one desired child under server-side apply -/
+def ssaOne (fieldManager : String) (info : KindInfo) (kind : String) (parentRef : OwnerRef) (obs : Option J) (des : J)
+    (memo : Memo) : Prog (Option String × Memo) := do
+  let t := targetOf info.group info.resource info.namespaced (getNamespace des) (getName des)
+  let body := applyBody parentRef des
+  let key := memoKey info kind des
+  let skip := match obs, memo.lookup key with
+    | some o, some (h, g) => h.eqv body && g == getGeneration o
+    | _, _ => false
+  if skip then pure (none, memo)
+  else
+    let pre : Prog (Option String) := match obs with
+      | some o =>
+          if hasKey lastAppliedAnnotation ((getAnnotations o).getD []) then do
+            let r ← api .patchRemove t
+            match r with
+            | .err e => pure (some e)
+            | _ => pure none
+          else pure none
+      | none => pure none
+    let e ← pre
+    match e with
+    | some e => pure (some e, memo)
+    | none =>
+      let r ← api .apply t body (applyOpts fieldManager)
+      match r with
+      | .err e => pure (some e, memo)
+      | .obj patched => pure (none, memo.set key (body, getGeneration patched))
+      | _ => pure (some "unexpected response", memo)
+
+/-- `updateChildren` for one group; `ssa = some fieldManager` selects server-side apply -/
+def updateGroup (mks sys : List String) (children : List ChildRes) (ssa : Option String) (info : KindInfo) (kind : String) (parentRef : OwnerRef)
+    (observed : List (String × J)) : List (String × J) → Memo → Prog (List String × Memo)
+  | [], memo => pure ([], memo)
+  | (name, des) :: rest, memo => do
+      let (errs, memo) ← updateGroup mks sys children ssa info kind parentRef observed rest memo
       let t := targetOf info.group info.resource info.namespaced (getNamespace des) (getName des)
+      match ssa with
+      | some fm =>
+          let (e, memo) ← ssaOne fm info kind parentRef (observed.lookup name) des memo
+          pure ((match e with | some e => e :: errs | none => errs), memo)
+      | none =>
       match observed.lookup name with
       | some obs =>
         match updateAct mks sys (getMethod children info.group kind) obs des with
-        | .none => pure errs
-        | .error e => pure (e :: errs)
+        | .none => pure (errs, memo)
+        | .error e => pure (e :: errs, memo)
         | .delete uid => do
             let r ← api .delete t .null (deleteOpts uid)
             match r with
-            | .err "NotFound" => pure errs
-            | .err e => pure (e :: errs)
-            | _ => pure errs
+            | .err "NotFound" => pure (errs, memo)
+            | .err e => pure (e :: errs, memo)
+            | _ => pure (errs, memo)
         | .update body => do
             let r ← api .update t body
             match r with
-            | .err "NotFound" | .err "Conflict" => pure errs
-            | .err e => pure (e :: errs)
-            | _ => pure errs
+            | .err "NotFound" | .err "Conflict" => pure (errs, memo)
+            | .err e => pure (e :: errs, memo)
+            | _ => pure (errs, memo)
       | none => do
           let r ← api .create t (createBody parentRef des)
           match r with
-          | .err "AlreadyExists" => pure errs
-          | .err e => pure (e :: errs)
-          | _ => pure errs
+          | .err "AlreadyExists" => pure (errs, memo)
+          | .err e => pure (e :: errs, memo)
+          | _ => pure (errs, memo)
 
-/-- `ManageChildren` (dynamic apply): delete loop over observed groups, then create/update loop over
-    desired groups; every failure is collected, nothing stops the loops -/
-def manageChildren (mks sys : List String) (children : List ChildRes) (kt : KindTable) (parentRef : OwnerRef)
-    (observed desired : ObjMap) : Prog (List String) := do
-  let e1 ← observed.foldlM (fun (acc : List String) g => do
+/-- `ManageChildren`: delete loop over observed groups, then create/update loop over desired groups;
+    every failure is collected, nothing stops the loops -/
+def manageChildren (mks sys : List String) (children : List ChildRes) (ssa : Option String) (kt : KindTable) (parentRef : OwnerRef)
+    (observed desired : ObjMap) (memo : Memo) : Prog (List String × Memo) := do
+  let (e1, memo) ← observed.foldlM (fun (acc : List String × Memo) g => do
       match kt.find (gvkAPIVersion g.1) g.1.kind with
-      | none => pure (acc ++ ["discovery: can't find kind"])
+      | none => pure (acc.1 ++ ["discovery: can't find kind"], acc.2)
       | some info =>
-        let errs ← deleteGroup info ((desired.group g.1).map (·.1)) g.2
-        pure (acc ++ errs)) []
-  let e2 ← desired.foldlM (fun (acc : List String) g => do
+        let (errs, memo) ← deleteGroup info g.1.kind ((desired.group g.1).map (·.1)) g.2 acc.2
+        pure (acc.1 ++ errs, memo)) ([], memo)
+  let (e2, memo) ← desired.foldlM (fun (acc : List String × Memo) g => do
       match kt.find (gvkAPIVersion g.1) g.1.kind with
-      | none => pure (acc ++ ["discovery: can't find kind"])
+      | none => pure (acc.1 ++ ["discovery: can't find kind"], acc.2)
       | some info =>
-        let errs ← updateGroup mks sys children info g.1.kind parentRef (observed.group g.1) g.2
-        pure (acc ++ errs)) []
-  pure (e1 ++ e2)
+        let (errs, memo) ← updateGroup mks sys children ssa info g.1.kind parentRef (observed.group g.1) g.2 acc.2
+        pure (acc.1 ++ errs, memo)) ([], memo)
+  pure (e1 ++ e2, memo)
 
 end Mc
